@@ -398,9 +398,20 @@ class RenderContext:
                 loop_iteration_carry=loop_iteration_carry,
                 local_namespace_carry=self.get_size_of_locals(),
             )
-            # This might need to be generalized so the caller can specify which
-            # tag namespaces need to be copied.
-            ctx.tag_namespace["extends"] = self.tag_namespace["extends"]
+            # A block is part of the page it is rendered in. Stateful tags
+            # (`cycle`, `increment`, `decrement`, `for ... offset: continue`,
+            # `ifchanged`) and the block stacks continue in the block where the
+            # page left off, and the page continues after the block, just as
+            # when the template is rendered without an inheritance chain. Only
+            # variables assigned in the block stay in the block.
+            ctx.tag_namespace = self.tag_namespace
+            ctx.counters = self.counters
+            ctx.scope = ReadOnlyChainMap(
+                ctx.locals,
+                ctx.globals,
+                builtin,
+                ctx.counters,
+            )
         else:
             ctx = self.__class__(
                 template or self.template,
